@@ -78,3 +78,25 @@ Proof. exists over_history. split; vm_compute; reflexivity. Qed.
 Example over_history_fixed :
   view_eqb (run eps0 empty_cache over_history) (build eps0 (final_objects over_history)) = true.
 Proof. vm_compute. reflexivity. Qed.
+
+(* ---------- non-vacuity of the repair theorem ---------- *)
+From V Require Import C08.Lemmas2.
+
+Definition pg2 : pgobj := mkPG 2 1 1 1.
+Definition pod_pending : pod := mkPod 1 (Some 2%positive) None PPending false 1 0 false (mk_req 1000 1048576 0).
+(* node, PodGroup, pending pod, AddBindTask accepted by the node but the API bind fails *)
+Definition fail_history : list event := [ENode node1; EPG pg2; EPod pod_pending; EBind 2 1 1 false].
+
+Example fail_history_ok : hist_ok3 eps0 empty_cache fail_history.
+Proof.
+  assert (Hp : pod_ok pod_pending) by (split; [discriminate|]; split; [vm_compute; discriminate|discriminate]).
+  simpl. repeat split; auto; try discriminate; try (vm_compute; discriminate);
+    try (intros old H; vm_compute in H; discriminate).
+Qed.
+
+(* the failed bind really leaves the task Binding on the node, queued for resync; the drain puts it back *)
+Example fail_history_effect :
+  (t_status <$> c_heap (run eps0 empty_cache fail_history) !! 1%positive) = Some Binding /\
+  c_errq (run eps0 empty_cache fail_history) = [(2%positive, 1%positive)] /\
+  (t_status <$> c_heap (run eps0 empty_cache (fail_history ++ [EDrainResync])) !! 1%positive) = Some Pending.
+Proof. repeat split; vm_compute; reflexivity. Qed.
